@@ -152,6 +152,7 @@ func wgRun(t *testing.T, sp *wgSpec) {
 	for c, f := range sp.require {
 		rec.Require(c, f)
 	}
+	rec.Require("model:scaled", 0.05)
 	// bounded exhaustive part: the small universe (see wgSmallModel) under ALL depth-first start orders.
 	// quick: every 16th model of this process's share; thorough: the complete universe, split over the shards.
 	{
